@@ -428,7 +428,7 @@ def run_shape(case, ctx):
 def run_big(case, ctx):
     """Big-integer ranks.  tskit's unrank costs (sum over non-root subtrees of their shape rank) loop iterations
     (Combination.with_replacement_unrank), so inputs are drawn from regimes where that sum is bounded: uniform
-    ranks for n <= 15/16, low shape ranks or root-capped random topologies (subtrees <= 12/13 leaves) up to n = 60."""
+    ranks for n <= 15/16, low shape ranks or root-capped random topologies (subtrees <= 12/13 leaves, n <= 28/32)."""
     rng = case_rng(case)
     tier = case["tier"]
     mode = rng.choice(["uniform", "uniform", "low", "topo", "topo"])
@@ -446,7 +446,8 @@ def run_big(case, ctx):
         S = ref_num_shapes(n)
         s = rng.randrange(min(S, 3000))
     else:
-        n = rng.randint(umax + 1, 60)
+        # rank()/unrank() also walk the partitions of n up to the tree's own one: p(32) = 8 349, p(60) = 966 467
+        n = rng.randint(umax + 1, 28 if tier == "quick" else 32)
         S = ref_num_shapes(n)
         par = random_topology(rng, n, n, cap=cap)
         ts, m = rebuild(rng, [(par, n)], n)
@@ -482,7 +483,7 @@ def run_big(case, ctx):
     L = math.factorial(n) // aut(sh)
     ls = {0, L - 1, rng.randrange(L), rng.randrange(L), rng.randrange(min(L, 100))}
     if f_src is not None:
-        ls = {r[1], L - 1, rng.randrange(L)}
+        ls = {r[1], rng.choice([L - 1, rng.randrange(L)])}
         if shape_of(f_src) != sh:
             ctx.violation("unrank/roundtrip", f"Tree.unrank({n}, ({s}, 0)) has another shape than {fmt(f_src)} "
                                               f"whose rank() is {r}")
